@@ -211,6 +211,12 @@ func runCheck(repo, verif, prop string, thorough, verbose, writeEvidence, update
 			}
 		}
 	}
+	// lemmas (closed formulas)
+	for _, l := range eng.specs.lemmas {
+		if clauseHasProp(l, prop) {
+			run.obls = append(run.obls, eng.encodeLemma(l, nil))
+		}
+	}
 	// structural scans
 	run.scanObls = eng.runScans(prop)
 	// sweep (zero-annotation safety obligations over the request cone)
